@@ -2,6 +2,7 @@ package main
 
 import (
 	"fmt"
+	"os"
 	"go/types"
 	"unicode/utf8"
 
@@ -29,9 +30,12 @@ type obsRec struct {
 }
 
 type WorkItem struct {
+	dbgConds []*Term
 	prefix []int32
 	model  []uint64 // values of the path's inputs in creation order (flattened terms)
 }
+
+var debugReplay = os.Getenv("VERIF_DEBUG_REPLAY") != ""
 
 type dom256 [4]uint64
 
@@ -118,11 +122,15 @@ type Machine struct {
 	failMsg     string
 	mapRangeUsed int
 
+	dbgExpect, dbgTrace []*Term
+	dbgStack []string
 	sharedCovered func(string) bool
 	concreteInputs map[string]string
 
 	sumCache  map[sumKey]*sumEntry
-	sumBad    map[*ssa.Function]bool
+	sumCachePath map[sumKey]*sumEntry
+	pureCache map[*ssa.Function]int
+	sumCtx    *localCtx
 
 	stats Stats
 }
@@ -141,7 +149,8 @@ func NewMachine(prog *ssa.Program, solverKind string, opts Options) (*Machine, e
 		interpPkgs: map[string]bool{},
 		varSlots:   map[[2]int]*Term{},
 		sumCache:   map[sumKey]*sumEntry{},
-		sumBad:     map[*ssa.Function]bool{},
+		sumCachePath: map[sumKey]*sumEntry{},
+		pureCache:  map[*ssa.Function]int{},
 	}
 	m.stats.pathsByEnd = map[string]int{}
 	m.stats.intrinsics = map[string]int{}
@@ -168,7 +177,12 @@ func (m *Machine) resetPath(item WorkItem) {
 	m.watchEpoch = 0
 	m.watching = false
 	m.pc = m.pc[:0]
+	if len(m.sumCachePath) > 0 {
+		m.sumCachePath = map[sumKey]*sumEntry{}
+	}
 	m.prefix = item.prefix
+	m.dbgExpect = item.dbgConds
+	m.dbgTrace = m.dbgTrace[:0]
 	m.itemModel = item.model
 	m.dpos = 0
 	m.trace = m.trace[:0]
@@ -380,8 +394,33 @@ func (m *Machine) branchAt(c *Term, oblig bool, site ssa.Instruction) bool {
 		return m.localBranch(c)
 	}
 	m.stats.branches++
+	if debugReplay {
+		m.dbgTrace = append(m.dbgTrace, c)
+	}
 	if m.dpos < len(m.prefix) {
 		d := m.prefix[m.dpos]
+		if debugReplay && m.dpos < len(m.dbgExpect) && m.dbgExpect[m.dpos] != nil && m.dbgExpect[m.dpos] != c {
+			fmt.Fprintf(os.Stderr, "REPLAY DIVERGENCE at decision %d/%d:\n  expected %s\n  got      %s\n  site %v\n", m.dpos, len(m.prefix), m.dbgExpect[m.dpos], c, site)
+			fmt.Fprintf(os.Stderr, "  prefix=%v\n  stack=%v\n", m.prefix, m.dbgStack)
+			for i, e := range m.dbgExpect {
+				if e == nil {
+					fmt.Fprintf(os.Stderr, "  exp[%d]=pick\n", i)
+				} else {
+					fmt.Fprintf(os.Stderr, "  exp[%d]=%s\n", i, e)
+				}
+			}
+			for i, e := range m.dbgTrace {
+				if e == nil {
+					fmt.Fprintf(os.Stderr, "  got[%d]=pick\n", i)
+				} else {
+					fmt.Fprintf(os.Stderr, "  got[%d]=%s\n", i, e)
+				}
+			}
+			for _, nd := range m.nondet {
+				fmt.Fprintf(os.Stderr, "  nondet %s %d\n", nd.K, nd.V)
+			}
+			panic("replay divergence")
+		}
 		m.dpos++
 		m.trace = append(m.trace, d)
 		m.addPC(m.lit(c, d == 1))
@@ -394,6 +433,7 @@ func (m *Machine) branchAt(c *Term, oblig bool, site ssa.Instruction) bool {
 		switch m.factsImply(c) {
 		case 1:
 			if !mv {
+				m.debugContradiction(c)
 				panic("facts contradict model (true)")
 			}
 			otherFeasible = -1
@@ -436,7 +476,7 @@ func (m *Machine) branchAt(c *Term, oblig bool, site ssa.Instruction) bool {
 		np := make([]int32, len(m.trace)+1)
 		copy(np, m.trace)
 		np[len(m.trace)] = 1 - d
-		m.siblings = append(m.siblings, WorkItem{prefix: np, model: m.modelInOrder(otherModel)})
+		m.siblings = append(m.siblings, WorkItem{prefix: np, model: m.modelInOrder(otherModel), dbgConds: append([]*Term(nil), m.dbgTrace...)})
 	}
 	m.trace = append(m.trace, d)
 	m.addPC(m.lit(c, mv))
@@ -454,6 +494,9 @@ func (m *Machine) forkN(n int) int {
 	if m.local != nil {
 		panic(&pathEnd{endAbortLocal, "Pick inside summary"})
 	}
+	if debugReplay {
+		m.dbgTrace = append(m.dbgTrace, nil)
+	}
 	if m.dpos < len(m.prefix) {
 		d := m.prefix[m.dpos]
 		m.dpos++
@@ -465,7 +508,7 @@ func (m *Machine) forkN(n int) int {
 		np := make([]int32, len(m.trace)+1)
 		copy(np, m.trace)
 		np[len(m.trace)] = int32(i)
-		m.siblings = append(m.siblings, WorkItem{prefix: np, model: cur})
+		m.siblings = append(m.siblings, WorkItem{prefix: np, model: cur, dbgConds: append([]*Term(nil), m.dbgTrace...)})
 	}
 	m.trace = append(m.trace, 0)
 	return 0
@@ -557,7 +600,7 @@ func (m *Machine) decodeRuneAt(b []*Term, i int) (*Term, int) {
 	or := func(x, y *Term) *Term { return st.Bin(OpBOr, x, y) }
 	if m.branch(st.Bin(OpULt, b0, st.Const(8, 0x80))) {
 		r := z(b0)
-		m.origin[r] = []*Term{b0}
+		m.setOrigin(r, []*Term{b0})
 		return r, 1
 	}
 	avail := len(b) - i
@@ -567,7 +610,7 @@ func (m *Machine) decodeRuneAt(b []*Term, i int) (*Term, int) {
 			return invalid()
 		}
 		r := or(shl(and(b0, 0x1F), 6), and(b[i+1], 0x3F))
-		m.origin[r] = []*Term{b0, b[i+1]}
+		m.setOrigin(r, []*Term{b0, b[i+1]})
 		return r, 2
 	}
 	if m.branch(m.inRange(b0, 0xE0, 0xEF)) {
@@ -585,7 +628,7 @@ func (m *Machine) decodeRuneAt(b []*Term, i int) (*Term, int) {
 			return invalid()
 		}
 		r := or(or(shl(and(b0, 0x0F), 12), shl(and(b[i+1], 0x3F), 6)), and(b[i+2], 0x3F))
-		m.origin[r] = []*Term{b0, b[i+1], b[i+2]}
+		m.setOrigin(r, []*Term{b0, b[i+1], b[i+2]})
 		return r, 3
 	}
 	if m.branch(m.inRange(b0, 0xF0, 0xF4)) {
@@ -605,7 +648,7 @@ func (m *Machine) decodeRuneAt(b []*Term, i int) (*Term, int) {
 			return invalid()
 		}
 		r := or(or(or(shl(and(b0, 0x07), 18), shl(and(b[i+1], 0x3F), 12)), shl(and(b[i+2], 0x3F), 6)), and(b[i+3], 0x3F))
-		m.origin[r] = []*Term{b0, b[i+1], b[i+2], b[i+3]}
+		m.setOrigin(r, []*Term{b0, b[i+1], b[i+2], b[i+3]})
 		return r, 4
 	}
 	return invalid()
@@ -637,7 +680,7 @@ func (m *Machine) runeBytes(r *Term) []*Term {
 		}
 		return out
 	}
-	if o, ok := m.origin[r]; ok {
+	if o, ok := m.getOrigin(r); ok {
 		return o
 	}
 	c32 := func(k uint64) *Term { return st.Const(32, k) }
@@ -649,12 +692,12 @@ func (m *Machine) runeBytes(r *Term) []*Term {
 	}
 	if m.branch(lt(0x80)) {
 		out := []*Term{b8(r)}
-		m.origin[r] = out
+		m.setOrigin(r, out)
 		return out
 	}
 	if m.branch(lt(0x800)) {
 		out := []*Term{b8(st.Bin(OpBOr, c32(0xC0), shr(6))), cb(r)}
-		m.origin[r] = out
+		m.setOrigin(r, out)
 		return out
 	}
 	// invalid: surrogates or > 0x10FFFF (as unsigned this also covers negative runes)
@@ -664,10 +707,57 @@ func (m *Machine) runeBytes(r *Term) []*Term {
 	}
 	if m.branch(lt(0x10000)) {
 		out := []*Term{b8(st.Bin(OpBOr, c32(0xE0), shr(12))), cb(shr(6)), cb(r)}
-		m.origin[r] = out
+		m.setOrigin(r, out)
 		return out
 	}
 	out := []*Term{b8(st.Bin(OpBOr, c32(0xF0), shr(18))), cb(shr(12)), cb(shr(6)), cb(r)}
-	m.origin[r] = out
+	m.setOrigin(r, out)
 	return out
+}
+
+func (m *Machine) debugContradiction(c *Term) {
+	v, _ := m.singleSmallVar(c)
+	d := m.domain(v)
+	var vals []int
+	for i := 0; i < 256; i++ {
+		if d.has(i) {
+			vals = append(vals, i)
+		}
+	}
+	fmt.Fprintf(os.Stderr, "CONTRADICTION cond=%s var=v%d env=%d dom=%v prefixlen=%d dpos=%d inputs=%d itemModel=%v\n", c.String(), v, m.env[v], vals, len(m.prefix), m.dpos, len(m.inputs), m.itemModel)
+	for _, l := range m.pc {
+		fmt.Fprintf(os.Stderr, "  pc: %s  [eval=%d]\n", l.String(), m.st.Eval(l, m.env))
+	}
+	for i, in := range m.inputs {
+		fmt.Fprintf(os.Stderr, "  input %d = v%d env=%d\n", i, in.k, m.env[in.k])
+	}
+}
+
+// origin: rune term -> its exact UTF-8 bytes, valid under the current path condition.
+// Inside a summary the facts hold only under the local guard, so they go to a
+// per-local-path overlay that is discarded afterwards.
+func (m *Machine) setOrigin(r *Term, b []*Term) {
+	if m.local != nil {
+		if m.local.origin == nil {
+			m.local.origin = map[*Term][]*Term{}
+		}
+		m.local.origin[r] = b
+		return
+	}
+	m.origin[r] = b
+}
+
+func (m *Machine) getOrigin(r *Term) ([]*Term, bool) {
+	if m.local != nil {
+		// summaries are context-free: only facts established under the local guard count,
+		// so that a summary's result never depends on whether it was cached
+		if m.local.origin != nil {
+			if o, ok := m.local.origin[r]; ok {
+				return o, true
+			}
+		}
+		return nil, false
+	}
+	o, ok := m.origin[r]
+	return o, ok
 }
